@@ -198,7 +198,9 @@ impl SvgElement {
 
 // ------------------------------------------------------------------------------ native attribute sets
 pub open spec fn lacks(m: M, ks: Seq<Seq<char>>) -> bool { forall|i: int| 0 <= i < ks.len() ==> !m.dom().contains(#[trigger] ks[i]) }
-pub open spec fn is_rectlike(n: Seq<char>) -> bool { n == ""@ || n == "rect"@ || n == "use"@ || n == "image"@ || n == "svg"@ || n == "foreignObject"@ }
+/// the element kinds located by x / y / width / height: from the property (C09 / C11 quantify over box and point
+/// too) and from bbox_raw, which reads x, y, width, height for exactly these
+pub open spec fn is_rectlike(n: Seq<char>) -> bool { n == ""@ || n == "rect"@ || n == "box"@ || n == "use"@ || n == "image"@ || n == "svg"@ || n == "foreignObject"@ }
 
 impl Position {
     #[verifier::external_body]
@@ -238,6 +240,9 @@ impl Position {
 //@       ((self.xmin is Some || self.xmax is Some || self.cx is Some || self.dx is Some) ==> written(m, "x"@, val(b.x1) + or0(self.dx)))
 //@       && ((self.ymin is Some || self.ymax is Some || self.cy is Some || self.dy is Some) ==> written(m, "y"@, val(b.y1) + or0(self.dy)))
 //@       && (old(element).name@ != "use"@ ==> written(m, "width"@, val(b.x2) - val(b.x1)) && written(m, "height"@, val(b.y2) - val(b.y1))) })     @@C11.native.values.rect
+//@ - to_bbox_spec(*self) is Some && old(element).name@ == "point"@ ==> ({ let b = to_bbox_spec(*self)->Some_0; let m = final(element).attrs@;
+//@       written(m, "x"@, val(b.x1) + or0(self.dx)) && written(m, "y"@, val(b.y1) + or0(self.dy))
+//@       && lacks(m, seq!["dx"@, "dy"@, "x1"@, "y1"@, "x2"@, "y2"@, "cx"@, "cy"@]) })     @@C09.point.placed @@C11.native.values.point
 //@ - to_bbox_spec(*self) is Some && old(element).name@ == "circle"@ ==> ({ let b = to_bbox_spec(*self)->Some_0; let m = final(element).attrs@;
 //@       written(m, "r"@, (val(b.x2) - val(b.x1)) / 2real)
 //@       && ((self.xmin is Some || self.xmax is Some || self.cx is Some || self.dx is Some) ==> written(m, "cx"@, (val(b.x1) + val(b.x2)) / 2real + or0(self.dx)))
